@@ -100,6 +100,7 @@ type Case struct {
 	Ops  *OpsCase  `json:"ops,omitempty"`
 	Sync *SyncCase `json:"sync,omitempty"`
 	Sel  *SelCase  `json:"select,omitempty"`
+	Bits *BitsCase `json:"bits,omitempty"`
 	Note string    `json:"note,omitempty"`
 }
 
@@ -369,6 +370,8 @@ func run(c *Case, ft *feat) (f *report.Failure) {
 			out = runSync(c.Sync, ft)
 		case "select":
 			out = runSelect(c.Sel, ft)
+		case "bits":
+			out = runBits(c.Bits, ft)
 		default:
 			out = report.Failf("harness", "unknown pool %q", c.Pool)
 		}
@@ -1464,6 +1467,7 @@ func TestCheck(t *testing.T) {
 	}
 	r.Mandatory("pool:att", "pool:exit", "pool:propslash", "pool:attslash", "pool:sync", "pool:select",
 		"att:mixed-singles-aggregates+prune-after-conflict", "att:bitlen-mismatch", "att:search-every-filter-combination", "att:readd-after-prune",
+		"pool:bits", "bits:single:one", "bits:single:none", "bits:single:several", "bits:single:committee-mismatch", "bits:covers:length-mismatch", "bits:covers:strict-superset", "bits:covers:not-covered", "bits:or", "bits:bitvector",
 		"ops:duplicate+conflict", "sync:add-before-first-reset", "sync:reset-forward+backward+same+jump", "select:member-without-message")
 
 	exec := func(c *Case) *report.Failure {
@@ -1533,6 +1537,16 @@ func TestCheck(t *testing.T) {
 			for k := range ft.set {
 				r.Class("sync:" + k)
 			}
+		case "bits":
+			major = []string{"single:one", "single:none", "single:several", "single:committee-mismatch", "covers:length-mismatch", "covers:strict-superset", "covers:not-covered", "bitvector"}
+			for k := range ft.set {
+				r.Class("bits:" + k)
+				r.Hit("bits:" + k)
+			}
+			nontrivial = len(c.Bits.A) >= 2 && (ft.has("or") || ft.has("bitvector") || ft.has("covers:length-mismatch"))
+			major = append(major, c.Bits.Kind, fmt.Sprint(len(c.Bits.A)))
+			ft.add(c.Bits.Kind)
+			ft.add(fmt.Sprint(len(c.Bits.A)))
 		case "select":
 			if ft.has("member-without-message") {
 				r.Hit("select:member-without-message")
@@ -1571,6 +1585,7 @@ func TestCheck(t *testing.T) {
 	}
 	search("sync", 8000, 150000, func(rt *rapid.T) *Case { return genSync(rt, false) })
 	search("select", 3000, 40000, genSelect)
+	search("bits", 6000, 200000, genBits)
 	// class tour (every mandatory class at every seed)
 	search("tour-att-mixed", 80, 800, tourAttMixed)
 	search("tour-att-shapes", 40, 400, tourAttShapes)
